@@ -438,9 +438,9 @@ Theorem wf_u8_refuted :
   (exists s t, length s = 256 /\ wf_u8 false s t = Panic PIndex).
 Proof.
   repeat split.
-  - exists (a_n 255), b_1. repeat split; [apply repeat_length|apply wf_255_debug_overflow].
-  - exists b_1, (a_n 255). repeat split; [apply repeat_length|apply wf_255_target_debug_overflow].
-  - exists (a_n 255), b_1. repeat split; [apply repeat_length|apply wf_255_release_wraps|apply lev_255_1].
+  - exists (a_n 255), b_1. repeat split; first [apply repeat_length|apply wf_255_debug_overflow|reflexivity].
+  - exists b_1, (a_n 255). repeat split; first [apply repeat_length|apply wf_255_target_debug_overflow|reflexivity].
+  - exists (a_n 255), b_1. repeat split; first [apply repeat_length|apply wf_255_release_wraps|apply lev_255_1|reflexivity].
   - exists (a_n 256), b_1. split; [apply repeat_length|apply wf_256_debug_assert].
   - exists (a_n 256), b_1. split; [apply repeat_length|apply wf_256_release_index].
 Qed.
